@@ -1,5 +1,357 @@
-//! C20 — not built yet.
+//! C20 — core containers and identifiers: grouping map, interner, KMP matcher, nevec (this binary),
+//! command tags under all thread schedules (engine in /verif/harness-sched, folded in here).
+//! Engines: BEX (all histories / all inputs) + XS (BFS with merging on the implementation state).
+//! DESIGN.md §3 C20.
+
+mod common;
+mod gmap;
+mod intern;
+mod kmp;
+mod nev;
+
+use common::judge;
+use serde_json::{json, Value};
+use std::collections::HashMap;
+use vcore::{Acc, Ctx, Level};
+
+// ---------------------------------------------------------------- model self-validation
+
+/// The repository's own expectations (doc tests and unit tests of the three modules), replayed
+/// through the *models*.
+fn self_validate() -> Result<(), String> {
+    use reftex::scope::{NoGroupToEnd, Scope, ScopeModel};
+    // groupingmap.rs module docs, second example ("paganini")
+    let mut m: ScopeModel<&str, &str> = ScopeModel::new();
+    m.insert("paganini", "black", Scope::Local);
+    m.begin_group();
+    m.insert("paganini", "gray", Scope::Local);
+    let a = m.get(&"paganini") == Some(&"gray") && m.end_group() == Ok(()) && m.get(&"paganini") == Some(&"black");
+    m.begin_group();
+    m.insert("mint", "ginger", Scope::Local);
+    let b = m.get(&"mint") == Some(&"ginger") && m.end_group() == Ok(()) && m.get(&"mint").is_none();
+    // third example: end_group with no group
+    let mut e: ScopeModel<String, String> = ScopeModel::new();
+    let c = e.end_group() == Err(NoGroupToEnd);
+    // fourth example: global insert
+    let mut g: ScopeModel<&str, &str> = ScopeModel::new();
+    g.insert("paganini", "black", Scope::Local);
+    g.begin_group();
+    g.insert("paganini", "gray", Scope::Global);
+    let d = g.end_group() == Ok(()) && g.get(&"paganini") == Some(&"gray");
+    // tests::insert_after_nested_insert
+    let mut t: ScopeModel<i32, i32> = ScopeModel::new();
+    t.begin_group();
+    t.insert(3, 5, Scope::Local);
+    let f = t.end_group() == Ok(()) && t.get(&3).is_none() && {
+        t.insert(3, 4, Scope::Local);
+        t.get(&3) == Some(&4)
+    };
+    // tests::insert_global_after_no_insert
+    let mut t: ScopeModel<i32, i32> = ScopeModel::new();
+    t.begin_group();
+    t.insert(3, 5, Scope::Global);
+    let h = t.end_group() == Ok(()) && t.get(&3) == Some(&5);
+    if !(a && b && c && d && f && h) {
+        return Err(format!("reftex::scope fails the groupingmap.rs doc/unit expectations: {:?}", [a, b, c, d, f, h]));
+    }
+    // substringsearch.rs module docs: [2,3,2] in 1,2,3,2,3,2 -> f f f t f t
+    if kmp::naive(&[2, 3, 2], &[1, 2, 3, 2, 3, 2]) != [false, false, false, true, false, true] {
+        return Err("the naive matcher fails the substringsearch.rs doc example".into());
+    }
+    // interner.rs module docs: hello, world, hello -> keys 1, 2, 1 (the Vec<String> oracle is built into
+    // intern::check; here its key rule "position of first occurrence + 1" on the doc example)
+    let mut model: Vec<&str> = vec![];
+    let keys: Vec<usize> = ["hello", "world", "hello"]
+        .iter()
+        .map(|s| match model.iter().position(|m| m == s) {
+            Some(p) => p + 1,
+            None => {
+                model.push(s);
+                model.len()
+            }
+        })
+        .collect();
+    if keys != [1, 2, 1] {
+        return Err("the Vec<String> oracle fails the interner.rs doc example".into());
+    }
+    Ok(())
+}
+
+// ---------------------------------------------------------------- cases
+
+fn gmap_case(container: &str, h: &[u8], cont: usize) -> Value {
+    json!({"kind": "gmap", "container": container, "h": h, "cont": cont,
+           "text": format!("{} (L/G k=v: local/global insert, {{ begin_group, }} end_group)", gmap::render(h)),
+           "test_body": "let mut m = GroupingHashMap::default(); /* apply the operations of `text` in order; compare get/len/iter and from_iter(iter_all()) with the expected values */"})
+}
+
+fn run_gmap(container: &str, idx: u64, h: &[u8], cont: usize, acc: &mut Acc) -> Option<gmap::Fp> {
+    acc.eval();
+    let case = || gmap_case(container, h, cont);
+    if container == "hash" {
+        judge(idx, acc, &case, &|acc: &mut Acc| gmap::check_history::<HashMap<usize, u8>>(h, cont, acc))
+    } else {
+        judge(idx, acc, &case, &|acc: &mut Acc| gmap::check_history::<Vec<Option<u8>>>(h, cont, acc))
+    }
+}
+
+/// All variants (hasher x serde position) of one interner history. Returns the number of executions.
+fn run_interner(idx: u64, ops: &[u64], only: Option<(bool, Option<usize>)>, acc: &mut Acc) {
+    let mut variants: Vec<(bool, Option<usize>)> = vec![];
+    for constant in [false, true] {
+        variants.push((constant, None));
+        for p in 0..=ops.len() {
+            variants.push((constant, Some(p)));
+        }
+    }
+    if intern::nontrivial(ops) {
+        acc.nontrivial();
+    }
+    for (vi, (constant, serde_at)) in variants.into_iter().enumerate() {
+        if let Some(o) = only {
+            if o != (constant, serde_at) {
+                continue;
+            }
+        }
+        acc.eval();
+        acc.traces_validated += 1;
+        let case = || json!({"kind": "interner", "ops": ops, "constant_hasher": constant, "serde_at": serde_at, "text": intern::render(ops)});
+        let r: Option<()> = if constant {
+            judge(idx * 16 + vi as u64, acc, &case, &|acc: &mut Acc| intern::check::<intern::ConstBuild>(ops, serde_at, true, acc))
+        } else {
+            judge(idx * 16 + vi as u64, acc, &case, &|acc: &mut Acc| intern::check::<intern::RandomBuild>(ops, serde_at, false, acc))
+        };
+        if r.is_some() {
+            acc.class(&format!("interner ok: {} distinct strings, {} hasher, serde {}", distinct_interned(ops), if constant { "constant" } else { "random" }, if serde_at.is_some() { "yes" } else { "no" }));
+        }
+    }
+}
+fn distinct_interned(ops: &[u64]) -> usize {
+    let mut s: Vec<u64> = ops.iter().filter(|o| *o % 2 == 0).map(|o| o / 2).collect();
+    s.sort();
+    s.dedup();
+    s.len()
+}
+
+fn run_kmp(idx: u64, pat: &[u64], text: &[u64], acc: &mut Acc) {
+    acc.eval();
+    let case = || json!({"kind": "kmp", "pat": pat, "text": text, "render": format!("pattern {:?} in {:?}", kmp::letters(pat), kmp::letters(text))});
+    if judge(idx, acc, &case, &|acc: &mut Acc| kmp::check(pat, text, acc)).is_some() {
+        let n = kmp::naive(pat, text).iter().filter(|b| **b).count();
+        acc.class(&format!("kmp ok: pattern length {}, {} match(es)", pat.len(), n.min(6)));
+    }
+}
+
+fn run_nevec(idx: u64, ctor: u64, ops: &[u64], acc: &mut Acc) {
+    acc.eval();
+    let case = || json!({"kind": "nevec", "ctor": ctor, "ops": ops, "text": nev::render(ctor, ops)});
+    judge(idx, acc, &case, &|acc: &mut Acc| nev::check(ctor, ops, acc));
+}
+
+fn kmp_family(ctx: &mut Ctx, name: &str, k: u64, maxpat: u32, maxtext: u32) {
+    let npat = vcore::strings_upto(k, maxpat) - 1; // without the empty pattern (a Nevec cannot be empty)
+    let ntext = vcore::strings_upto(k, maxtext);
+    ctx.family(name, &format!("all patterns of length 1..={maxpat} x all texts of length 0..={maxtext} over a {k}-letter alphabet, two searches per matcher"), npat * ntext, |i, acc| {
+        let pat = vcore::nth_string(k, 1 + i / ntext);
+        let text = vcore::nth_string(k, i % ntext);
+        run_kmp(i, &pat, &text, acc);
+        if i % 400_009 == 77 {
+            acc.sample(i, || json!({"pattern": kmp::letters(&pat), "text": kmp::letters(&text)}));
+        }
+    });
+}
+
+// ---------------------------------------------------------------- main
+
 fn main() {
-    eprintln!("c20: check not built yet");
-    std::process::exit(2);
+    let mut ctx = Ctx::new("C20", Level::ModelChecking);
+    ctx.assume("grouping map: keys {0,1}, values {0,1}; a value that is never assigned does not exist (no removal operation in the public API)");
+    ctx.assume("GroupingVec: `==` between the original and from_iter(iter_all()) is judged only when both backing vectors have the same number of slots; a Vec-backed map keeps an empty slot for a key that was rolled back, the derived PartialEq tells `[]` from `[None]`, and the property speaks of visible values and behaviour (which are checked: iter_all segments, drains and all continuations of length <= 2)");
+    ctx.assume("HashMap iteration order inside the subject (RandomState) is not controlled; every failing case is re-executed 5 times and any failing execution counts");
+    ctx.assume("interner: resolve is observed after every step for every issued key, the next two unissued keys and u32::MAX (resolve takes &self, so this subsumes resolve as a history operation)");
+    ctx.assume("tags: sequentially consistent interleavings at the seam's acquire/release points (shuttle); data races are outside this engine (DESIGN §5)");
+    if let Err(e) = self_validate() {
+        ctx.machinery_error(e);
+        ctx.finish("model self-validation failed");
+    }
+
+    if let Some((fam, case)) = ctx.replay_case() {
+        if fam == "tags-schedules" || case["kind"] == "tags" {
+            println!("REPLAY property=C20: thread-schedule replay files are handled by /verif/harness-sched/run --replay (already run by ./check)");
+            std::process::exit(0);
+        }
+        let mut acc = Acc::default();
+        replay(&case, &mut acc);
+        ctx.finish_replay(acc);
+    }
+
+    // (i) every history, no merging, both containers
+    {
+        let len = ctx.pick(6u32, 7u32);
+        let n = vcore::strings_upto(gmap::N_ACT as u64, len);
+        for (container, name) in [("hash", "gmap-histories-hashmap"), ("vec", "gmap-histories-vec")] {
+            ctx.family(name, &format!("every history of length <= {len} over 10 actions (insert(k,v,Local|Global) for k,v in {{0,1}}, begin_group, end_group also with no group open); after every step return value, get, len, is_empty, iter; at the end drain of end_group calls and replay law (visible values, ==, iter_all of the rebuilt map, drain of the rebuilt map)"), n, |i, acc| {
+                let h: Vec<u8> = vcore::nth_string(gmap::N_ACT as u64, i).into_iter().map(|x| x as u8).collect();
+                run_gmap(container, i, &h, 0, acc);
+                if i % 100_003 == 4242 {
+                    acc.sample(i, || json!({"container": container, "history": gmap::render(&h)}));
+                }
+            });
+        }
+    }
+    // (ii) BFS with merging on the exact implementation state, replay law with continuations <= 2
+    for (container, name) in [("hash", "gmap-xs-hashmap"), ("vec", "gmap-xs-vec")] {
+        if !ctx.wants(name) {
+            continue;
+        }
+        let t = std::time::Instant::now();
+        let depth = ctx.pick(10usize, 14usize);
+        let deadline = std::time::Instant::now() + std::time::Duration::from_secs_f64(ctx.remaining_s().min(ctx.pick(60.0, 2400.0)));
+        let (mut acc, stats) = vcore::xs::bfs(gmap::N_ACT, depth, ctx.pick(3_000_000, 40_000_000), ctx.threads, deadline, gmap::init_fp(), |h, acc| run_gmap(container, u64::MAX, h, 2, acc));
+        acc.sample(0, || json!({"xs": {"container": container, "depth_completed": stats.depth_completed, "frontier_sizes": stats.frontier_sizes, "states": stats.states}}));
+        ctx.extra(
+            &format!("xs_{name}"),
+            json!({"depth_completed": stats.depth_completed, "depth_bound": depth, "frontier_sizes": stats.frontier_sizes, "capped": stats.capped,
+            "fingerprint": "per level: the iter_all() segment (keys in that group's log with their values; level 0: the outermost values) and the value of each key visible at that level when the inner groups are ended (drain); exact because from_iter(iter_all()) == original is checked with the container's own PartialEq at every state"}),
+        );
+        ctx.push_family(
+            name,
+            &format!("BFS to depth {depth} over the same 10 actions, states merged on the exact implementation state; at every transition: model comparison, drain, replay law incl. every continuation of length <= 2 on the rebuilt container"),
+            stats.capped.is_none(),
+            stats.capped.clone(),
+            t.elapsed().as_secs_f64(),
+            acc,
+        );
+    }
+    // (iii) interner
+    {
+        let len = ctx.pick(5u32, 6u32);
+        let n = vcore::strings_upto(intern::N_OPS, len);
+        ctx.family("interner-histories", &format!("every history of length <= {len} over get_or_intern/get x {:?}; each under RandomState and under a constant hasher, without and with a serde_json round trip before every position (incl. the end); resolve/get of everything after every step", intern::STRS), n, |i, acc| {
+            let ops = vcore::nth_string(intern::N_OPS, i);
+            run_interner(i, &ops, None, acc);
+            if i % 50_021 == 333 {
+                acc.sample(i, || json!({"interner_history": intern::render(&ops)}));
+            }
+        });
+    }
+    // (iv) KMP
+    kmp_family(&mut ctx, "kmp-binary", 2, 5, 12);
+    let tl = ctx.pick(9, 11);
+    kmp_family(&mut ctx, "kmp-ternary", 3, 4, tl);
+    // nevec
+    {
+        let len = ctx.pick(6u32, 8u32);
+        let per = vcore::strings_upto(nev::N_OPS, len);
+        ctx.family("nevec-histories", &format!("4 constructors x every history of length <= {len} over push(0), push(1), pop_from_tail, *last_mut()=, *get_mut(1)=, *get_mut(0)=; len/last/get/index/iter/Display after every step, clone and pop at the end"), nev::N_CTOR * per, |i, acc| {
+            let ops = vcore::nth_string(nev::N_OPS, i % per);
+            run_nevec(i, i / per, &ops, acc);
+            if i % 30_011 == 99 {
+                acc.sample(i, || json!({"nevec": nev::render(i / per, &ops)}));
+            }
+        });
+    }
+    // tags: fold in what the thread-schedule engine measured on this run
+    fold_schedules(&mut ctx);
+
+    if ctx.only_family.is_none() {
+        for (c, m) in [
+            ("end_group_restored_value_shadowed_twice", "end_group restored a value that itself shadows an outer value"),
+            ("global_insert_purged_saved_value_at_depth_ge_2", "a global insert at depth >= 2 for a key with a saved value"),
+            ("end_group_without_open_group", "end_group with no group open"),
+            ("end_group_deleted_key_first_defined_in_group", "end_group removed a key that the enclosing level does not have"),
+            ("global_insert_over_key_unknown_to_outermost_level", "global insert of a key that only exists inside groups"),
+            ("second_local_insert_of_key_in_same_group", "the group log already holds the key"),
+            ("replay_eq_checked", "from_iter(iter_all()) == original was evaluated"),
+            ("replay_with_nonempty_group_log", "replay law on a state with a non-empty group log"),
+            ("replay_continuations_checked", "continuations run on rebuilt containers"),
+            ("interner_lookup_in_bucket_with_two_other_strings", "constant hasher: lookup walks a list with >= 2 other strings"),
+            ("interner_new_string_already_occurs_in_buffer", "a new string is a substring of the shared buffer"),
+            ("interner_empty_string_interned_after_others", "the empty string gets a key when the buffer is not empty"),
+            ("interner_existing_string_after_deserialise", "dedup map rebuilt by deserialisation finds an old string"),
+            ("interner_new_string_after_deserialise", "a new string is interned into a deserialised interner"),
+            ("kmp_pattern_has_border", "the pattern has a proper prefix that is also a suffix"),
+            ("kmp_overlapping_matches", "two occurrences overlap"),
+            ("kmp_disjoint_repeated_matches", "two occurrences do not overlap"),
+            ("nevec_pop_from_tail_on_single_element", "pop_from_tail on a one-element vector"),
+        ] {
+            ctx.require(c, m);
+        }
+    }
+    ctx.finish(
+        "grouping map: every operation history inside the bound on both backing containers, compared step by step with the stack-of-snapshots model (non-trivial = an end_group that changes what is visible, or a global insert inside a group), plus BFS with state merging on the exact implementation state and the replay law under all continuations of length <= 2; interner: every history x hasher x serde position (non-trivial = >= 2 distinct strings interned and an interned string looked up again); KMP: every pattern x text (non-trivial = at least one occurrence); nevec: every history (non-trivial = reaches >= 3 elements); tags: every thread schedule of the listed configurations (counted as transitions, distinct outcomes as states)",
+    );
+}
+
+/// Read /verif/evidence/C20-sched.json (written by /verif/harness-sched/run just before this binary
+/// is started by ./check) and add its counts as the family "tags-schedules".
+fn fold_schedules(ctx: &mut Ctx) {
+    if !ctx.wants("tags-schedules") {
+        return;
+    }
+    let out = std::env::var("VERIF_OUT").unwrap_or_else(|_| "/verif".into());
+    let path = format!("{out}/evidence/C20-sched.json");
+    let Ok(text) = std::fs::read_to_string(&path) else {
+        eprintln!("[C20] {path} not present: the thread-schedule engine did not run; evidence covers the sequential containers only");
+        ctx.extra("tag_schedules", json!({"present": false, "note": "harness-sched/run did not run before this binary"}));
+        return;
+    };
+    let v: Value = match serde_json::from_str(&text) {
+        Ok(v) => v,
+        Err(e) => {
+            ctx.machinery_error(format!("{path} is not JSON: {e}"));
+            return;
+        }
+    };
+    let tier = if ctx.quick() { "quick" } else { "thorough" };
+    if v["tier"] != tier || v["complete"] != true {
+        eprintln!("[C20] {path} is from another tier or an incomplete run: not folded in");
+        ctx.extra("tag_schedules", json!({"present": true, "folded": false, "file": v}));
+        return;
+    }
+    let mut acc = Acc::default();
+    let mut bounds = vec![];
+    for c in v["configurations"].as_array().cloned().unwrap_or_default() {
+        let s = c["schedules"].as_u64().unwrap_or(0);
+        let o = c["distinct_outcomes"].as_u64().unwrap_or(0);
+        acc.evals += s;
+        acc.nontrivial += c["schedules_with_contention"].as_u64().unwrap_or(0);
+        acc.transitions += s;
+        acc.states += o;
+        acc.traces_validated += s;
+        acc.count_n("tag_schedules_explored", s);
+        acc.count_n("tag_schedules_lock_contended", c["schedules_with_contention"].as_u64().unwrap_or(0));
+        acc.class(&format!("tags {}: {} schedules, {} outcomes", c["name"].as_str().unwrap_or("?"), s, o));
+        bounds.push(format!("{} ({} schedules)", c["name"].as_str().unwrap_or("?"), s));
+        acc.sample(0, || json!({"tag_configuration": c["name"], "sample_outcomes": c["sample_outcomes"]}));
+    }
+    ctx.require("tag_schedules_lock_contended", "schedules in which a thread had to wait for a seam lock");
+    ctx.extra("tag_schedules", json!({"present": true, "folded": true, "file": v}));
+    let wall = v["wall_s"].as_f64().unwrap_or(0.0);
+    ctx.push_family("tags-schedules", &format!("shuttle check_dfs (every schedule) through the H1 sync seam: {}", bounds.join("; ")), v["exhaustive"] == true, None, wall, acc);
+}
+
+fn u64s(v: &Value) -> Vec<u64> {
+    v.as_array().map(|a| a.iter().map(|x| x.as_u64().unwrap_or(0)).collect()).unwrap_or_default()
+}
+
+fn replay(case: &Value, acc: &mut Acc) {
+    match case["kind"].as_str() {
+        Some("gmap") => {
+            let h: Vec<u8> = u64s(&case["h"]).into_iter().map(|x| x as u8).collect();
+            let container = case["container"].as_str().unwrap_or("hash").to_string();
+            run_gmap(&container, 0, &h, case["cont"].as_u64().unwrap_or(2) as usize, acc);
+        }
+        Some("interner") => {
+            let ops = u64s(&case["ops"]);
+            let only = (case["constant_hasher"] == true, case["serde_at"].as_u64().map(|x| x as usize));
+            run_interner(0, &ops, Some(only), acc);
+        }
+        Some("kmp") => run_kmp(0, &u64s(&case["pat"]), &u64s(&case["text"]), acc),
+        Some("nevec") => run_nevec(0, case["ctor"].as_u64().unwrap_or(0), &u64s(&case["ops"]), acc),
+        _ => {
+            eprintln!("replay: unknown case kind");
+            std::process::exit(2);
+        }
+    }
 }
